@@ -459,9 +459,10 @@ def same_floats(hs, fs):
     return True
 
 
-def judge(h, out, which):
+def judge(h, out, which, d12_out=None):
     """Specification-level oracles on ONE implementation output line.
-    which = "C05" | "C06" | "both".  -> (findings [(kind, text)], d12_hits, stats)"""
+    which = "C05" | "C06" | "both".  -> (findings [(kind, text)], d12_hits, stats); the
+    descriptions of the D12-class observations are appended to d12_out when given"""
     S = Struct(h)
     segs = parse_out(out)
     steps = h["steps"]
@@ -549,9 +550,10 @@ def judge(h, out, which):
             (F5 if c5 else F6).append(("status", "step %d `%s`: status %s" % (i, k, st)))
             continue
         if k == "add":
-            if (st == "ok") != s["ok"]:
-                (F5 if c5 else F6).append(("add-status", "step %d: add %s returned %s" % (i, s["spec"], st)))
-                break
+            # (no `add-status` oracle here: s["ok"] is parsed from this very output by parse_case, so comparing it
+            # with `st` could never fail -- audit of 1 October.  Whether an add must succeed is decided by the
+            # MODEL: the per-step status is part of the line compared bitwise with the extracted model's line
+            # in check_histories, and a difference there is reported as corr-graph.)
             if c5 and (seg["F"] or seg["B"] or seg["P"]):
                 F5.append(("add-computes", "step %d: creating a node ran %s / changed the parameter store" % (i, seg["raw"])))
             continue
@@ -596,7 +598,13 @@ def judge(h, out, which):
                         a, b = hv(g0), hv(g1)
                         flip = [POS0 if x == NEG0 else x for x in a]
                         if b == flip:
-                            d12 += 1     # known class D12: -0.0f + zeros = +0.0f
+                            # class D12: -0.0f + zeros = +0.0f.  Counted here; check_histories routes it through
+                            # ctx.violation with a `blocked-path ... negative-zero` witness, so that it is the entry
+                            # D12 of known_findings.json (and nothing in this file) that downgrades it
+                            d12 += 1
+                            if d12_out is not None:
+                                d12_out.append("step %d: parameter %d is reachable only through stop_gradient/constant/input/random, "
+                                               "gradient %s -> %s (only -0.0f elements became +0.0f)" % (i, p, g0, g1))
                         else:
                             F6.append(("blocked-gradient", "step %d: parameter %d is reachable only through stop_gradient/constant/input/random, gradient %s -> %s" % (i, p, g0, g1)))
                 a, b = hv(g0), hv(g1)
@@ -1412,13 +1420,17 @@ def check_histories(ctx, name, which, lines, impl, model, twins=(), impl_env=Non
             save_corpus(ctx.pid, small, "correspondence: impl `%s` vs model `%s`" % (sx, sy))
     # ---- specification oracles on the implementation's output alone
     nviol, d12, reported = 0, 0, {}
+    d12_first = None
     for l, o in zip(lines, o1):
+        d12_texts = []
         try:
             h = parse_case(l, o)
-            F, d, st = judge(h, o, which)
+            F, d, st = judge(h, o, which, d12_texts)
         except Exception as e:      # malformed output (crash in the middle of a line)
             F, d, st = [("crash", "unreadable output (%s): `%s`" % (e, o[-200:]))], 0, {}
         d12 += d
+        if d and d12_texts and (d12_first is None or len(l) < len(d12_first[0])):
+            d12_first = (l, o, d12_texts[0])
         for k, v in st.items():
             stats[k] = stats.get(k, 0) + v
         if F:
@@ -1428,8 +1440,16 @@ def check_histories(ctx, name, which, lines, impl, model, twins=(), impl_env=Non
                 reported[kind] = (l, o, F)
     stats["d12_hits"] = d12
     stats["oracle_violations"] = nviol
-    if d12:
-        ctx.known_finding_confirmed("D12")
+    if d12 and d12_first:
+        # a violation of "bit-for-bit" like any other; ctx.violation turns it into KNOWN-FINDING only because (and
+        # only as long as) known_findings.json lists D12 with the regular expression `blocked-path.*negative-zero`
+        l, o, text = d12_first
+        obj = {"kind": "blocked-path-negative-zero", "case": l, "impl": o, "oracle": [text], "hits_in_this_run": d12,
+               "witness": "%s :: blocked-path gradient :: negative-zero element becomes +0 :: %s" % (which, text.split(",")[0]),
+               "impl_driver": impl, "model_driver": model, "which": which}
+        ctx.violation("%s-blocked-negzero" % which.lower(), obj, True,
+                      "backward changed the gradient bits of a parameter that is reachable only through gradient-blocking operators "
+                      "(grad += zeros turns -0.0f into +0.0f), %d time(s); e.g. history `%s`: %s" % (d12, l[:600], text))
     for kind, (l, o, F) in reported.items():
         h = parse_case(l, o)
 
@@ -1602,6 +1622,7 @@ def run_check(ctx, which):
         "exactness claims (k calls add k times the same) are checked only where all gradients involved are dyadic k/16 with |x| <= 2^18; the number of skipped pairs is reported",
         "hypotheses of the Coq theorems (Graph/Theorems.v): FamOK - every operator's forward assigns all its outputs, forward_shape returns one shape per output, an operator with inner values (Parameter) takes no arguments; the per-operator backward is modelled as the list of increments it ADDS to the argument gradients (every *_bw kernel and BACKWARD body only does gx += ..., by inspection; the same node in two argument positions receives both increments); for C06_blocked_gets_only_zero additionally ZeroOK (zeros+zeros = zeros; a backward fed with all-zero upstream gradients adds zeros) and, for the identity, x + 0 = x, which float32 violates bitwise exactly for x = -0.0f (D12)",
         "theorems are closed under the global context (no axioms); they are about the model for ALL operator families / histories, the example family of Graph/Example.v shows the hypotheses are satisfiable",
+        "OVER-SPECIFICATION (stated, not repaired): the model and the oracles describe the code AS IT IS where the property text leaves room. (1) The model reproduces D12 -- backward visits ancestors that are reachable only through stop_gradient/constant/input/random and adds zeros to their gradients (so -0.0f becomes +0.0f) -- and the `backward-log` oracle requires Operator::backward on EVERY ancestor of the target, blocked ones included. A repair of D12 in /repo (skipping blocked ancestors) would therefore make the correspondence and this oracle of C06 raise an alarm until Graph/Backward.v and the oracle are updated, although the property would then hold more strictly. (2) The D12 observation itself is an ordinary violation routed through the known-findings file (entry D12, `blocked-path.*negative-zero`): removing that entry turns it into a VIOLATION. (3) The status of every add (accepted / rejected) is checked against the extracted MODEL only (bitwise comparison of the step lines); the former `add-status` oracle compared the implementation with itself and was removed",
     ]
     if not res["ok"]:
         ctx.proof_broken()
